@@ -172,6 +172,14 @@ impl Axecutor {
 
             let read_end = rand::thread_rng().gen::<u16>() as u64 + 1024;
             let write_end = rand::thread_rng().gen::<u16>() as u64 + 1024;
+            #[cfg(ax_verif)]
+            let read_end = crate::verif::rng_u64()
+                .map(|v| (v as u16) as u64 + 1024)
+                .unwrap_or(read_end);
+            #[cfg(ax_verif)]
+            let write_end = crate::verif::rng_u64()
+                .map(|v| (v as u16) as u64 + 1024)
+                .unwrap_or(write_end);
             assert_fatal!(
                 !ax.state.syscalls.pipes_read_ends.contains_key(&read_end),
                 "Duplicate read end for pipe"
